@@ -142,6 +142,26 @@ def jsonable_op(op):
     return {k: j(v) for k, v in op.items() if not k.startswith('_')}
 
 
+def respell_with_dots(rng, t, path):
+    """another spelling of `path` with '.' / 'dir/..' detours BELOW the root, every detour through an existing directory:
+    by the normalisation laws (resolved_is_normalised_path, C19_resolve_*) it denotes the same place"""
+    comps = [c for c in path.split('/') if c]
+    if len(comps) < 2:
+        return path
+    out, node = [], t.root
+    for i, c in enumerate(comps):
+        if i >= 1 and node is not None and node != 'notdir' and node.get('kind') == 'dir' and rng.random() < 0.6:
+            subs = [k['name'] for k in node['children'].values() if k['kind'] == 'dir']
+            r = rng.random()
+            if r < 0.4:
+                out.append('.')
+            elif subs:
+                out += [rng.choice(subs), '..'] + (['.'] if r > 0.9 else [])
+        out.append(c)
+        node = node['children'].get(c.upper()) if node not in (None, 'notdir') and node.get('kind') == 'dir' else None
+    return '/' + '/'.join(out)
+
+
 def run_history(ctx, R, rng, nops, populated, FatFileSystem, sig='fs.history', fat_types=('fat12', 'fat16', 'fat32')):
     g, buf, t = new_volume(rng, ctx.thorough, populated, fat_types)
     history = []
@@ -158,9 +178,17 @@ def run_history(ctx, R, rng, nops, populated, FatFileSystem, sig='fs.history', f
             need = len(op.get('data', b'')) // g.cs + 4 + (op.get('pos', 0) + op.get('size', 0)) // g.cs
             if t.used_clusters(g.cs) + need > g.n_clusters - 6:
                 continue
+            plain = op
+            if op['op'] != 'session' and rng.random() < 0.25:
+                # the same operation through a dotted spelling of its path(s): same outcome, same tree
+                op = dict(op, path=respell_with_dots(rng, t, op['path']))
+                if 'target' in op:
+                    op['target'] = respell_with_dots(rng, t, op['target'])
+                if op != plain:
+                    ctx.stat('op-through-a-dotted-path')
             jop = jsonable_op(op)
             history.append(jop)
-            want = fatops.apply_model(t, op)
+            want = fatops.apply_model(t, plain)
             got = fatops.apply_impl(fs, op)
             ctx.stat('op-' + op['op'] + ('-ok' if want == 'ok' else '-err'))
             if (want == 'ok') != (got == 'ok'):
